@@ -404,6 +404,104 @@ func (d *driver) encDec(encOp, decOp string, enc, dec, twEnc, twDec func(a, b []
 	}
 }
 
+// reuseEncDec: the caller REUSES its argument buffers across calls on one primitive — same slices, new contents. A
+// primitive that remembers an argument by reference (a cache keyed on the caller's slice, a stored sub-slice) answers
+// the second call from the first call's contents.
+func (d *driver) reuseEncDec(encOp, decOp string, enc, dec, twEnc, twDec func(a, b []byte) ([]byte, error)) {
+	for _, n := range d.lens {
+		ptA, adA := ref.GuardText(1, n), ref.GuardText(2, n)
+		ptB, adB := ref.GuardText(4, n), ref.GuardText(5, n)
+		if bytes.Equal(adA, adB) {
+			continue
+		}
+		ptBuf, adBuf := clone(ptA), clone(adA)
+		if _, err := enc(ptBuf, adBuf); err != nil {
+			d.fail("op-error", encOp, "%v", err)
+			return
+		}
+		copy(ptBuf, ptB)
+		copy(adBuf, adB)
+		ct2, err := enc(ptBuf, adBuf)
+		if err != nil {
+			d.fail("op-error", encOp, "second call on reused buffers: %v", err)
+			return
+		}
+		d.t.x.Eval(2)
+		if got, err := twDec(clone(ct2), clone(adB)); err != nil || !bytes.Equal(got, ptB) {
+			d.fail("retains-argument", encOp, "buffers reused with new contents: the second ciphertext does not decrypt to the second plaintext under the second associated data / context info (%v)", err)
+		}
+		if _, err := twDec(clone(ct2), clone(adA)); err == nil {
+			d.fail("retains-argument", encOp, "buffers reused with new contents: the second ciphertext is bound to the FIRST call's associated data / context info")
+		}
+		ctA, errA := twEnc(clone(ptA), clone(adA))
+		ctB, errB := twEnc(clone(ptB), clone(adB))
+		if errA != nil || errB != nil || len(ctA) != len(ctB) {
+			continue
+		}
+		ctBuf, adBuf := clone(ctA), clone(adA)
+		if got, err := dec(ctBuf, adBuf); err != nil || !bytes.Equal(got, ptA) {
+			d.fail("op-error", decOp, "valid ciphertext rejected: %v", err)
+			return
+		}
+		copy(adBuf, adB)
+		d.t.x.Eval(2)
+		if _, err := dec(ctBuf, adBuf); err == nil {
+			d.fail("retains-argument", decOp, "associated data / context info buffer rewritten in place: the first ciphertext is still accepted")
+		}
+		copy(ctBuf, ctB)
+		if got, err := dec(ctBuf, adBuf); err != nil || !bytes.Equal(got, ptB) {
+			d.fail("retains-argument", decOp, "buffers reused with new contents: the second ciphertext is not decrypted to the second plaintext (%v)", err)
+		}
+	}
+}
+
+// reuseSignVerify: as reuseEncDec for sign / verify and MAC compute / verify.
+func (d *driver) reuseSignVerify(signOp, verOp string, sign func([]byte) ([]byte, error), verify, twVerify func(sig, data []byte) error, twSign func([]byte) ([]byte, error)) {
+	for i, n := range d.lens {
+		dA, dB := ref.GuardText(3, n), ref.GuardText(6, n)
+		if bytes.Equal(dA, dB) || (d.slow && i > 1) {
+			continue
+		}
+		buf := clone(dA)
+		if _, err := sign(buf); err != nil {
+			d.fail("op-error", signOp, "%v", err)
+			return
+		}
+		copy(buf, dB)
+		s2, err := sign(buf)
+		if err != nil {
+			d.fail("op-error", signOp, "second call on a reused buffer: %v", err)
+			return
+		}
+		d.t.x.Eval(2)
+		if err := twVerify(clone(s2), clone(dB)); err != nil {
+			d.fail("retains-argument", signOp, "data buffer reused with new contents: the second signature/tag is not valid for the second data (%v)", err)
+		}
+		if err := twVerify(clone(s2), clone(dA)); err == nil {
+			d.fail("retains-argument", signOp, "data buffer reused with new contents: the second signature/tag is valid for the FIRST data")
+		}
+		sA, errA := twSign(clone(dA))
+		sB, errB := twSign(clone(dB))
+		if errA != nil || errB != nil || len(sA) != len(sB) {
+			continue
+		}
+		sBuf, dBuf := clone(sA), clone(dA)
+		if err := verify(sBuf, dBuf); err != nil {
+			d.fail("op-error", verOp, "valid signature/tag rejected: %v", err)
+			return
+		}
+		copy(dBuf, dB)
+		d.t.x.Eval(2)
+		if err := verify(sBuf, dBuf); err == nil {
+			d.fail("retains-argument", verOp, "data buffer rewritten in place: the first signature/tag is still accepted")
+		}
+		copy(sBuf, sB)
+		if err := verify(sBuf, dBuf); err != nil {
+			d.fail("retains-argument", verOp, "buffers reused with new contents: the second signature/tag is rejected (%v)", err)
+		}
+	}
+}
+
 func (d *driver) signVerify(signOp, verOp string, sign func([]byte) ([]byte, error), verify, twVerify func(sig, data []byte) error, twSign func([]byte) ([]byte, error), deterministic bool) {
 	sigs := map[int][]byte{}
 	for _, l := range d.layouts(1) {
@@ -453,26 +551,34 @@ func (d *driver) run() {
 	switch p.class {
 	case keycat.ClassAEAD:
 		d.encDec(d.op("aead.Encrypt"), d.op("aead.Decrypt"), p.aead.Encrypt, p.aead.Decrypt, tw.aead.Encrypt, tw.aead.Decrypt, false)
+		d.reuseEncDec(d.op("aead.Encrypt"), d.op("aead.Decrypt"), p.aead.Encrypt, p.aead.Decrypt, tw.aead.Encrypt, tw.aead.Decrypt)
 	case keycat.ClassDAEAD:
 		d.encDec(d.op("daead.EncryptDeterministically"), d.op("daead.DecryptDeterministically"), p.daead.EncryptDeterministically, p.daead.DecryptDeterministically,
 			tw.daead.EncryptDeterministically, tw.daead.DecryptDeterministically, true)
+		d.reuseEncDec(d.op("daead.EncryptDeterministically"), d.op("daead.DecryptDeterministically"), p.daead.EncryptDeterministically, p.daead.DecryptDeterministically,
+			tw.daead.EncryptDeterministically, tw.daead.DecryptDeterministically)
 	case keycat.ClassHybridDecrypt:
 		d.encDec(d.op("hybrid.Encrypt"), d.op("hybrid.Decrypt"), p.henc.Encrypt, p.hdec.Decrypt, tw.henc.Encrypt, tw.hdec.Decrypt, false)
+		d.reuseEncDec(d.op("hybrid.Encrypt"), d.op("hybrid.Decrypt"), p.henc.Encrypt, p.hdec.Decrypt, tw.henc.Encrypt, tw.hdec.Decrypt)
 	case keycat.ClassMAC:
 		d.signVerify(d.op("mac.ComputeMAC"), d.op("mac.VerifyMAC"), p.mac.ComputeMAC, p.mac.VerifyMAC, tw.mac.VerifyMAC, tw.mac.ComputeMAC, true)
+		d.reuseSignVerify(d.op("mac.ComputeMAC"), d.op("mac.VerifyMAC"), p.mac.ComputeMAC, p.mac.VerifyMAC, tw.mac.VerifyMAC, tw.mac.ComputeMAC)
 	case keycat.ClassSign:
 		d.signVerify(d.op("signature.Sign"), d.op("signature.Verify"), p.sign.Sign, p.verify.Verify, tw.verify.Verify, tw.sign.Sign, false)
+		d.reuseSignVerify(d.op("signature.Sign"), d.op("signature.Verify"), p.sign.Sign, p.verify.Verify, tw.verify.Verify, tw.sign.Sign)
 		if p.prehash != nil && tw.prehash != nil {
 			d.prehashes()
 		}
 	case keycat.ClassPRF:
 		d.prfs()
+		d.reusePRF()
 	case keycat.ClassStreaming:
 		d.streaming()
 	case keycat.ClassJWTMAC, keycat.ClassJWTSign:
 		d.jwt()
 	case keycat.ClassDeriver:
 		d.derive()
+		d.reuseDerive()
 	}
 }
 
@@ -528,6 +634,52 @@ func (d *driver) prfs() {
 				want, _ := tw.prf.ComputePrimaryPRF(clone(in), ol)
 				d.expect(op, got, err, want)
 			}
+		}
+	}
+}
+
+// reusePRF / reuseDerive: one input (salt) buffer rewritten in place between two calls on the same object.
+func (d *driver) reusePRF() {
+	p, tw := d.p, d.tw
+	op := d.op("prf.ComputePrimaryPRF")
+	for _, n := range d.lens {
+		inA, inB := ref.GuardText(4, n), ref.GuardText(7, n)
+		if bytes.Equal(inA, inB) {
+			continue
+		}
+		buf := clone(inA)
+		if _, err := p.prf.ComputePrimaryPRF(buf, 16); err != nil {
+			d.fail("op-error", op, "%v", err)
+			return
+		}
+		copy(buf, inB)
+		got, err := p.prf.ComputePrimaryPRF(buf, 16)
+		want, _ := tw.prf.ComputePrimaryPRF(clone(inB), 16)
+		d.t.x.Eval(1)
+		if err != nil || !bytes.Equal(got, want) {
+			d.fail("retains-argument", op, "input buffer reused with new contents: the second output is not the PRF of the second input (%v)", err)
+		}
+	}
+}
+
+func (d *driver) reuseDerive() {
+	op := d.op("keyderivation.DeriveKeyset")
+	for _, n := range d.lens {
+		sA, sB := ref.GuardText(5, n), ref.GuardText(8, n)
+		if bytes.Equal(sA, sB) {
+			continue
+		}
+		buf := clone(sA)
+		if _, err := d.p.deriver.DeriveKeyset(buf); err != nil {
+			d.fail("op-error", op, "%v", err)
+			return
+		}
+		copy(buf, sB)
+		kh, err := d.p.deriver.DeriveKeyset(buf)
+		th, err2 := d.tw.deriver.DeriveKeyset(clone(sB))
+		d.t.x.Eval(1)
+		if err != nil || err2 != nil || !proto.Equal(insecurecleartextkeyset.KeysetMaterial(kh), insecurecleartextkeyset.KeysetMaterial(th)) {
+			d.fail("retains-argument", op, "salt buffer reused with new contents: the second derived keyset is not the one of the second salt (%v %v)", err, err2)
 		}
 	}
 }
